@@ -34,6 +34,7 @@ func (p *c08) Draw(t *rapid.T, tier string) *runner.Scenario {
 	lim := limitsFor(tier)
 	lim.SmallTimes = rapid.IntRange(0, 2).Draw(t, "small_times") != 0
 	lim.MaxPayload = 200
+	lim.Rejects = true
 	wl := gen.Workload(t, lim)
 	cfg := gen.Cfg(t, lim)
 	if rapid.IntRange(0, 3).Draw(t, "force_stats") != 0 {
@@ -181,6 +182,11 @@ func (p *c08) Check(sc *runner.Scenario, st *runner.Stats, pin string) *runner.V
 	}
 	if len(c.Messages) == 0 {
 		st.Inc("probe.no_messages")
+	}
+	for _, o := range sc.WL.Ops {
+		if o.Reject {
+			st.Inc("probe.rejected_call")
+		}
 	}
 	// (a) Writer.Statistics after Close
 	if w.wres.Stats == nil {
